@@ -569,6 +569,9 @@ func c08Gen(g *Gen) {
 	// ---------- kind 3: the real listener over loopback TCP ----------
 	c08GenTCP(g)
 
+	// ---------- bytes special to line handling (CR, NUL, tab, ...): c08_special.go ----------
+	c08GenSpecial(g)
+
 	// ---------- API scripts (calls after FlushAll, empty reads, repeated flushes); limit 0 ----------
 	for i := 0; i < g.Pick(200, 3000); i++ {
 		cfg := []c08Cfg{c08CfgGt, c08CfgGt4, c08CfgSys, c08CfgGtLo}[r.Intn(4)]
